@@ -31,6 +31,7 @@ import (
 	"runtime"
 	"sort"
 	"strings"
+	"sync"
 	"time"
 
 	"gitlab.com/aquachain/aquachain/aqua/accounts"
@@ -64,6 +65,8 @@ type Scenario struct {
 	Runtime     bool              `json:"runtime"`        // HTTP and WS are not configured; they are started through admin_startRPC / admin_startWS over IPC with HTTPModules / WSModules as the apis argument
 	RuntimeNil  bool              `json:"runtime_nil"`    // with Runtime: pass apis = null (HTTP then uses Node.httpWhitelist = nil, WS uses Config.WSModules)
 	Only        *OnlyCall         `json:"only,omitempty"` // replay: a single call
+	Seed        uint64            `json:"seed"`           // for the request fuzzer in the child
+	NoFuzz      bool              `json:"no_fuzz"`        // skip the request fuzzer (quick tier: two fuzzing children are enough)
 }
 
 type OnlyCall struct {
@@ -110,6 +113,7 @@ type ChildOut struct {
 	Transports map[string]*TransportOut `json:"transports"`
 	Fake       []FakeCaller             `json:"fake_callers"`
 	Merge      []MergeCase              `json:"merge_cases"`
+	Fuzz       []FuzzCase               `json:"fuzz_cases"`
 	Universe   int                      `json:"universe"`
 	Error      string                   `json:"error,omitempty"`
 }
@@ -120,22 +124,48 @@ type ChildOut struct {
 type fakeCaller struct{}
 
 // toy services: protected and unprotected names, overlapping method names across services
+// every toy method records that it was CALLED (receiver type | Go name)
+var (
+	toyLogMu sync.Mutex
+	toyLog   []string
+)
+
+func toyCalled(who string) string {
+	toyLogMu.Lock()
+	toyLog = append(toyLog, who)
+	toyLogMu.Unlock()
+	return who
+}
+
+func toyLogTake() []string {
+	toyLogMu.Lock()
+	defer toyLogMu.Unlock()
+	l := toyLog
+	toyLog = nil
+	return l
+}
+
 type ToyA struct{}
 
-func (ToyA) Sign() string  { return "a" }
-func (ToyA) Alpha() string { return "a" }
+func (ToyA) Sign(x string, y *int) string { return toyCalled("main.ToyA|Sign") }
+func (ToyA) Alpha() string                { return toyCalled("main.ToyA|Alpha") }
 
 type ToyB struct{}
 
-func (ToyB) Sign() string            { return "b" }
-func (ToyB) Beta() string            { return "b" }
-func (ToyB) SendTransaction() string { return "b" }
+func (ToyB) Sign() string                            { return toyCalled("main.ToyB|Sign") }
+func (ToyB) Beta(n int, s *string, t *string) string { return toyCalled("main.ToyB|Beta") }
+func (ToyB) SendTransaction(x string) (string, error) {
+	return toyCalled("main.ToyB|SendTransaction"), nil
+}
 
 type ToyC struct{}
 
-func (ToyC) Alpha() string                  { return "c" }
-func (ToyC) SignAndSendTransaction() string { return "c" }
-func (ToyC) SignTransaction() string        { return "c" }
+func (ToyC) Alpha(z bool) string            { return toyCalled("main.ToyC|Alpha") }
+func (ToyC) SignAndSendTransaction() string { return toyCalled("main.ToyC|SignAndSendTransaction") }
+func (ToyC) SignTransaction(q *string) error {
+	toyCalled("main.ToyC|SignTransaction")
+	return fmt.Errorf("toy error")
+}
 
 type toyReg struct {
 	ns  string
@@ -146,7 +176,16 @@ func toySpec(r toyReg) string {
 	t := reflect.TypeOf(r.svc)
 	var ms []string
 	for i := 0; i < t.NumMethod(); i++ {
-		ms = append(ms, t.Method(i).Name)
+		mt := t.Method(i).Type
+		fl := ""
+		for j := 1; j < mt.NumIn(); j++ { // In(0) is the receiver; toy methods take no context
+			if mt.In(j).Kind() == reflect.Ptr {
+				fl += "p"
+			} else {
+				fl += "n"
+			}
+		}
+		ms = append(ms, t.Method(i).Name+"="+fl)
 	}
 	return r.ns + ":" + t.String() + ":" + strings.Join(ms, ",")
 }
@@ -194,6 +233,26 @@ func (fakeCaller) startIPC(seq []toyReg) MergeCase {
 		s.RegisterName(r.ns, r.svc)
 	}
 	return MergeCase{ownName(), toySeqString(seq), toyListing(s)}
+}
+
+//go:noinline
+func (fakeCaller) startIPCServer(seq []toyReg) (string, *rpc.Server) { // name does NOT end in .startIPC: never allowed
+	s := rpc.NewServer()
+	for _, r := range seq {
+		s.RegisterName(r.ns, r.svc)
+	}
+	return ownName(), s
+}
+
+type keepServer struct{ s *rpc.Server }
+
+//go:noinline
+func (k *keepServer) startHTTP(seq []toyReg) string { // ends in .startHTTP: allowed iff UNSAFE_RPC_SIGNING_HTTP
+	k.s = rpc.NewServer()
+	for _, r := range seq {
+		k.s.RegisterName(r.ns, r.svc)
+	}
+	return ownName()
 }
 
 //go:noinline
@@ -725,6 +784,9 @@ func childMain(specPath string) {
 			}
 		}
 	}
+	if !sc.ListOnly && sc.Only == nil && !sc.Clique && !sc.NoFuzz {
+		out.Fuzz = runFuzz(sc, env, universe, subUniverse, names, subNames)
+	}
 	emit()
 	done := make(chan struct{})
 	go func() { env.Stop(); close(done) }()
@@ -1004,6 +1066,131 @@ func evaluate(c *vh.Ctx, m *vh.Model, sc Scenario, out *ChildOut) {
 				map[string]interface{}{"scenario": sc, "transport": tr, "method": map[bool]string{true: call.Q, false: call.M}[call.Q != ""], "variant": call.V, "params": call.P, "result": call.R, "error": call.E, "sign_counter_delta": call.D})
 		}
 	}
+	evaluateFuzz(c, m, sc, out, flags)
+}
+
+// evaluateFuzz compares every fuzzed message with the model of the request path (Rpc/Invoke.v)
+func evaluateFuzz(c *vh.Ctx, m *vh.Model, sc Scenario, out *ChildOut, flags string) {
+	hm, wm := modelMods(sc)
+	t0 := time.Now()
+	// first pass: all model questions in one pipelined exchange
+	var asks []string
+	for _, fc := range out.Fuzz {
+		if fc.Undecided != "" {
+			continue
+		}
+		var toks []string
+		for _, q := range fc.Reqs {
+			toks = append(toks, q.Token)
+		}
+		if strings.HasPrefix(fc.Where, "toy:") {
+			specs := strings.Fields(fc.ToySeq)
+			asks = append(asks, fmt.Sprintf("invoke toy %s %s %d %s %s %s", flags, strings.TrimPrefix(fc.Where, "toy:"), len(specs), strings.Join(specs, " "), bit(fc.Batch), strings.Join(toks, " ")))
+		} else {
+			asks = append(asks, fmt.Sprintf("invoke node %s %s %s %s %s %s %s %s", chainOf(sc), flags, fc.Where, hm, wm, bit(sc.WSExposeAll), bit(fc.Batch), strings.Join(toks, " ")))
+		}
+	}
+	answers := m.AskAll(asks)
+	ai := 0
+	defer func() {
+		if len(out.Fuzz) > 0 {
+			c.Note("%s: %d fuzzed messages evaluated in %.1fs", sc.Name, len(out.Fuzz), time.Since(t0).Seconds())
+		}
+	}()
+	for _, fc := range out.Fuzz {
+		if fc.Undecided != "" {
+			c.Count("fuzz/undecided (" + strings.SplitN(fc.Undecided, ":", 2)[0] + ")")
+			continue
+		}
+		var toks []string
+		for _, q := range fc.Reqs {
+			toks = append(toks, q.Token)
+		}
+		var req, corr string
+		toy := strings.HasPrefix(fc.Where, "toy:")
+		if toy {
+			specs := strings.Fields(fc.ToySeq)
+			req = fmt.Sprintf("invoke toy %s %s %d %s %s %s", flags, strings.TrimPrefix(fc.Where, "toy:"), len(specs), strings.Join(specs, " "), bit(fc.Batch), strings.Join(toks, " "))
+			corr = "toy server"
+		} else {
+			req = fmt.Sprintf("invoke node %s %s %s %s %s %s %s %s", chainOf(sc), flags, fc.Where, hm, wm, bit(sc.WSExposeAll), bit(fc.Batch), strings.Join(toks, " "))
+			corr = "node " + fc.Where
+		}
+		ans := answers[ai]
+		ai++
+		mv := strings.Fields(ans)
+		var invokedModel []string
+		for i, v := range mv {
+			if strings.HasPrefix(v, "invoked:") {
+				e := strings.TrimPrefix(v, "invoked:")
+				if k := strings.Index(e, "_"); k >= 0 && (!strings.HasPrefix(fc.Where, "toy:") || strings.Contains(e, "|main.Toy")) {
+					invokedModel = append(invokedModel, e[k+1:]) // wire|recv (on toy servers: toy methods only; rpc_modules keeps no log)
+				}
+				mv[i] = "invoked"
+			}
+		}
+		obs := append([]string{}, fc.Verdicts...)
+		if len(obs) == len(mv) {
+			for i := range mv {
+				// the notifier's unsubscribe path calls no registered callback; on the wire it shows as an
+				// error of the notifier (-32000) or as invalid params
+				if mv[i] == "unsubscribe" && (obs[i] == "invoked" || obs[i] == "invalidparams") {
+					obs[i] = "unsubscribe"
+				}
+			}
+		}
+		name := "rpc request path (json.go parse, server.go readRequest/handle)~invoke (" + corr + map[bool]string{true: ", batch", false: ", single"}[fc.Batch] + ")"
+		if len(obs) == len(mv) && len(mv) == len(fc.Reqs) {
+			for i, q := range fc.Reqs {
+				c.Correspond(name, fmt.Sprintf("%s flags=%s %s %q [%s] %s", sc.Name, flags, fc.Where, q.Method, q.Class, q.Token), obs[i], mv[i])
+				c.Eval("fuzz/"+strings.SplitN(fc.Where, ":", 2)[0]+"/"+map[bool]string{true: "batch", false: "single"}[fc.Batch]+"/"+obs[i], fmt.Sprintf("%s|%s|%v|%s|%s", sc.Name, fc.Where, fc.Batch, q.Method, q.Token))
+			}
+		} else {
+			c.Correspond(name, fmt.Sprintf("%s flags=%s %s batch of %d (%s)", sc.Name, flags, fc.Where, len(fc.Reqs), req), strings.Join(obs, " "), strings.Join(mv, " "))
+			c.Eval("fuzz/"+strings.SplitN(fc.Where, ":", 2)[0]+"/rejected", fmt.Sprintf("%s|%s|%s", sc.Name, fc.Where, strings.Join(toks, " ")))
+		}
+		if toy {
+			var called []string
+			for _, w := range fc.ToyCalled {
+				p := strings.SplitN(w, "|", 2)
+				called = append(called, lowerFirst(p[1])+"|"+p[0])
+			}
+			c.Correspond("toy methods actually called~invoked_of", fmt.Sprintf("%s flags=%s %s (%s)", sc.Name, flags, fc.Where, req), strings.Join(called, ","), strings.Join(invokedModel, ","))
+		} else if fc.Delta > 0 && flags[flagIndex[fc.Where]] != '1' {
+			who := "fuzz:" + fc.Reqs[0].Method
+			if len(invokedModel) == 1 {
+				who = strings.SplitN(fc.Reqs[0].Target, "_", 2)[0] + "_" + strings.SplitN(invokedModel[0], "|", 2)[0]
+			}
+			c.Violate("rpc-unprotected-signer/"+who, fmt.Sprintf("a fuzzed message over %s entered a keystore signing entry point %d time(s) although %s is not set (%s)", fc.Where, fc.Delta, envVars[flagIndex[fc.Where]], envDesc(sc)),
+				map[string]interface{}{"scenario": sc, "transport": fc.Where, "batch": fc.Batch, "requests": fc.Reqs})
+		}
+	}
+}
+
+// randomModules draws a module whitelist: registered namespaces, unknown names, case variants,
+// duplicates, the empty name; possibly empty
+func randomModules(r *vh.RNG) []string {
+	pool := []string{"aqua", "personal", "miner", "admin", "debug", "net", "web3", "txpool", "testing", "btc", "rpc", "eth", "clique",
+		"nosuch", "Aqua", "PERSONAL", "aqua_", "Personal", "miner.", "x"}
+	switch r.Intn(6) {
+	case 0:
+		return nil // empty whitelist: the Public APIs
+	case 1:
+		return []string{pool[13+r.Intn(7)]} // only an unknown / wrongly cased name: metadata service only
+	}
+	n := 1 + r.Intn(6)
+	var l []string
+	for i := 0; i < n; i++ {
+		m := pool[r.Intn(len(pool))]
+		l = append(l, m)
+		if r.Chance(25) {
+			l = append(l, m) // duplicate
+		}
+	}
+	if r.Chance(20) {
+		l = append(l, "", l[0]) // the empty name between two real ones
+	}
+	return l
 }
 
 func scenarios(c *vh.Ctx) []Scenario {
@@ -1021,7 +1208,7 @@ func scenarios(c *vh.Ctx) []Scenario {
 	l = append(l, Scenario{Name: "clique/default-env/default-config", Env: none, Clique: true})
 	l = append(l, Scenario{Name: "default-env/default-config", Env: none})
 	// HTTP and WS started at run time over IPC with a wide whitelist: do they honour the flags?
-	l = append(l, Scenario{Name: "runtime-start/default-env/wide-modules", Env: rt(nil), Runtime: true, NoDefaults: true, HTTPModules: wide, WSModules: wide})
+	l = append(l, Scenario{Name: "runtime-start/default-env/wide-modules", Env: rt(nil), Runtime: true, NoDefaults: true, HTTPModules: wide, WSModules: wide, NoFuzz: !c.Thorough()})
 	truthy := []string{"1", "true", "yes", "on", "ENABLED", "banana", "2"}
 	falsy := []string{"0", "false", "no", "off", "", "Disabled"}
 	if !c.Thorough() {
@@ -1045,6 +1232,25 @@ func scenarios(c *vh.Ctx) []Scenario {
 		l = append(l, Scenario{Name: "no-keys/wide-modules/list-only", Env: none, NoKeys: true, NoDefaults: true, HTTPModules: wide, WSModules: wide, ListOnly: true})
 		l = append(l, Scenario{Name: "NO_SIGN/wide-modules/list-only", Env: map[string]string{"NO_SIGN": "1"}, NoDefaults: true, HTTPModules: wide, WSModules: wide, ListOnly: true})
 		l = append(l, Scenario{Name: "clique/wide-modules/list-only", Env: none, Clique: true, NoDefaults: true, HTTPModules: wide, WSModules: wide, ListOnly: true})
+		// generated whitelist configurations (start-up and run-time), registry comparison only
+		for i := 0; i < 3; i++ {
+			e := map[string]string{}
+			if c.Rng.Chance(50) {
+				e[envVars[2+c.Rng.Intn(2)]] = "1" // HTTP or WS opted in
+			}
+			sc := Scenario{Name: fmt.Sprintf("generated-whitelists-%d/list-only", i), Env: e, NoDefaults: true, HTTPModules: randomModules(c.Rng), WSModules: randomModules(c.Rng), WSExposeAll: c.Rng.Chance(15), ListOnly: true}
+			if i == 2 {
+				sc.Name = "runtime-start/" + sc.Name
+				sc.Env, sc.Runtime = rt(e), true
+				if len(sc.HTTPModules) == 0 {
+					sc.HTTPModules = []string{"nosuch"} // apis="" would be split into [""], a different list
+				}
+				if len(sc.WSModules) == 0 {
+					sc.WSModules = []string{"Aqua"}
+				}
+			}
+			l = append(l, sc)
+		}
 		return l
 	}
 	l = append(l, Scenario{Name: "default-env/wide-modules", Env: none, NoDefaults: true, HTTPModules: wide, WSModules: wide})
@@ -1082,6 +1288,15 @@ func scenarios(c *vh.Ctx) []Scenario {
 		l = append(l, sc)
 		// and the same environment with servers started at run time, registry comparison only
 		l = append(l, Scenario{Name: fmt.Sprintf("env-mask-%02d/runtime-start/list-only", mask), Env: rt(env), Runtime: true, NoDefaults: true, HTTPModules: wide, WSModules: wide, ListOnly: true})
+	}
+	for i := 0; i < 14; i++ {
+		e := map[string]string{}
+		for k := 1; k < 5; k++ {
+			if c.Rng.Chance(30) {
+				e[envVars[k]] = truthy[c.Rng.Intn(len(truthy))]
+			}
+		}
+		l = append(l, Scenario{Name: fmt.Sprintf("generated-whitelists-%d/list-only", i), Env: e, NoDefaults: true, HTTPModules: randomModules(c.Rng), WSModules: randomModules(c.Rng), WSExposeAll: c.Rng.Chance(15), Clique: c.Rng.Chance(25), ListOnly: true})
 	}
 	l = append(l, Scenario{Name: "default-env/empty-whitelist", Env: none, NoDefaults: true})
 	l = append(l, Scenario{Name: "default-env/ws-expose-all", Env: none, NoDefaults: true, HTTPModules: []string{"personal"}, WSModules: []string{"net"}, WSExposeAll: true})
@@ -1131,13 +1346,18 @@ func main() {
 		err error
 	}
 	results := make([]res, len(scs))
+	childSecs := make([]float64, len(scs))
+	tAll := time.Now()
 	par := 8
 	sem := make(chan struct{}, par)
 	done := make(chan int, len(scs))
 	for i := range scs {
 		go func(i int) {
 			sem <- struct{}{}
+			scs[i].Seed = c.Seed
+			tc := time.Now()
 			o, e := runChild(c, scs[i], i)
+			childSecs[i] = time.Since(tc).Seconds()
 			results[i] = res{o, e}
 			<-sem
 			done <- i
@@ -1146,7 +1366,11 @@ func main() {
 	for range scs {
 		<-done
 	}
+	c.Note("children: %d processes in %.1fs wall", len(scs), time.Since(tAll).Seconds())
 	for i, sc := range scs {
+		if childSecs[i] > 5 {
+			c.Note("child %s took %.1fs", sc.Name, childSecs[i])
+		}
 		if results[i].err != nil {
 			c.Fatal("scenario %s: %v", sc.Name, results[i].err)
 		}
